@@ -175,6 +175,11 @@ fn build_req(id: &str, spec: &Value) -> RawCommand {
     if pad > 0 {
         cmd = cmd.argument(format!("p{pad}"));
     }
+    // a long argument the server ignores (a file name, a filter ...): requests of several hundred KiB, lists of several MiB
+    let fat = spec["fat"].as_u64().unwrap_or(0) as usize;
+    if fat > 0 {
+        cmd = cmd.argument("z".repeat(fat));
+    }
     cmd
 }
 
